@@ -224,7 +224,7 @@ def CLegal (s : ChanSys) : CLabel → Prop
     (s.g.cancels = true → s.h.e.cancelTrap = none → s.h.e.legalCancelRet ans = true)
   | .deferStart ans => s.g.defer ≠ none ∧ (s.h.e.copyTrap = none → s.h.e.legalImmediate 1 ans = true)
   | .peerXfer k => s.g.running = false ∧ s.g.defer = none ∧ s.h.e.legalXfer k = true
-  | .peerDrop => s.g.running = false ∧ s.g.defer = none
+  | .peerDrop => s.g.running = false ∧ s.g.defer = none ∧ (s.h.e.st = .copying → s.h.e.legalPeerDrop = true)
   | .deliver => s.g.running = false ∧ s.g.defer = none ∧ s.h.e.pending ≠ none ∧
     (∃ t, s.env.cur = some t ∧ s.env.regs.contains (t.ptr, s.h.handle) = true)
 
